@@ -74,6 +74,14 @@ class C04(FragHarness, WrapHarness):
         out.append({'entry': 'wrap', 'feat': 'full', 'algo': 'O', 'sep': 'U', 'split': 'H', 'bw': True, 'gen': 'alpha',
                     'alphabet': [' ', 'a', '-', '\n', '你', '\x1b'], 'n': 3 if q else 4, 'ind': 'none',
                     'wset': [0, 1, 2, (1 << 53) - 1, (1 << 53) + 1, 1 << 63, U64MAX]})
+        # sentence templates (paragraph-sized texts with a few symbolic characters), all widths
+        tb = {'feat': 'full', 'algo': 'F', 'sep': 'A', 'split': 'H', 'bw': True, 'ind': 'both', 'imax': 1}
+        out += std_tmpl_spaces(tb, q, entry='wrap')
+        for e in ('fill_inplace', 'unfill', 'dedent', 'indent'):
+            out += std_tmpl_spaces({'feat': 'full'}, q, variants=False, entry=e)
+        if not q:
+            out += tmpl_spaces(dict(tb, algo='O', wmax=1 << 20), ['short', 'longword', 'paras', 'ansi'], entry='wrap')
+            out += tmpl_spaces(dict(tb, le='CRLF'), ['sentence', 'paras', 'crlf'], entry='refill')
         # line-breaking algorithms on fragments
         for n in range(0, (3 if q else 4) + 1):
             out.append({'entry': 'algo', 'feat': 'full', 'algo': 'F', 'num': 'fpany', 'n': min(n, 2 if q else 3), 'nlw': 1,
